@@ -396,6 +396,10 @@ func init() {
 				return r.next()
 			},
 		)
+		for _, prime := range k.bs[1:] {
+			// earlier UPDATEs decoded with the same decoder (callbacks returning nil): Decode is a function of the body alone
+			d.Decode(&rec{}, prime) // nolint: errcheck
+		}
 		err := d.Decode(r, k.b(0))
 		t := tokens{0, uint64(r.n)}
 		t.add(r.calls...)
